@@ -20,6 +20,10 @@ type IContext struct {
 
 // Cancel 取消接口代理
 func (c *IContext) Cancel() {
+	if c.p.canceled || c.p.originIface == nil {
+		// 已经取消过(或从未生效)的代理不能再次写回备份值, 否则会覆盖之后对该变量的赋值或其它 mock
+		return
+	}
 	*c.p.originIface = *c.p.originIfaceValue
 	c.p.canceled = true
 }
